@@ -277,5 +277,8 @@ Definition verdicts_RC (cs : list rtcase) : list N := map (verdict_with RC_ok) c
 (* C01 and C04 under a Core: their own predicate and the reference semantics *)
 Definition verdicts_C01R (cs : list rtcase) : list N := map (verdict_with (fun c => C01_ok c && RC_ok c)) cs.
 Definition verdicts_C04R (cs : list rtcase) : list N := map (verdict_with (fun c => C04_ok c && RC_ok c)) cs.
+(* C03 under a Core: its own log predicate and, for cancellation-free apps, the reference semantics (every event
+   emitted was applied exactly once by the time the call returned: RC_ok compares the whole log as a multiset) *)
+Definition verdicts_C03R (cs : list rtcase) : list N := map (verdict_with (fun c => C03_ok c && RC_ok c)) cs.
 Definition core_fragment_flags (cs : list rtcase) : list N := map core_fragment_flag cs.
 Definition flat_flags (cs : list rtcase) : list N := map (fun c => if case_flat c then 1%N else 0%N) cs.
